@@ -21,6 +21,10 @@ import (
 type PKI struct {
 	Pool *x509.CertPool
 	Leaf tls.Certificate
+	// Untrusted is a leaf for 127.0.0.1 under a second CA that is not in Pool; WrongName is a leaf
+	// under the trusted CA for another address. Both make the relay's handshake fail.
+	Untrusted tls.Certificate
+	WrongName tls.Certificate
 }
 
 var (
@@ -35,51 +39,71 @@ func GetPKI() (*PKI, error) {
 	return pki, pkiErr
 }
 
-func newPKI() (*PKI, error) {
-	caKey, err := ecdsa.GenerateKey(elliptic.P256(), rand.Reader)
+func newCA(cn string) (*x509.Certificate, *ecdsa.PrivateKey, error) {
+	key, err := ecdsa.GenerateKey(elliptic.P256(), rand.Reader)
 	if err != nil {
-		return nil, err
+		return nil, nil, err
 	}
 	now := time.Now()
-	caT := &x509.Certificate{
+	t := &x509.Certificate{
 		SerialNumber:          big.NewInt(1),
-		Subject:               pkix.Name{CommonName: "verif C10 harness CA"},
+		Subject:               pkix.Name{CommonName: cn},
 		NotBefore:             now.Add(-time.Hour),
 		NotAfter:              now.Add(48 * time.Hour),
 		IsCA:                  true,
 		BasicConstraintsValid: true,
 		KeyUsage:              x509.KeyUsageCertSign | x509.KeyUsageDigitalSignature,
 	}
-	caDER, err := x509.CreateCertificate(rand.Reader, caT, caT, &caKey.PublicKey, caKey)
+	der, err := x509.CreateCertificate(rand.Reader, t, t, &key.PublicKey, key)
 	if err != nil {
-		return nil, err
+		return nil, nil, err
 	}
-	caCert, err := x509.ParseCertificate(caDER)
+	c, err := x509.ParseCertificate(der)
+	return c, key, err
+}
+
+func newLeaf(ca *x509.Certificate, caKey *ecdsa.PrivateKey, serial int64, ip net.IP, name string) (tls.Certificate, error) {
+	key, err := ecdsa.GenerateKey(elliptic.P256(), rand.Reader)
 	if err != nil {
-		return nil, err
+		return tls.Certificate{}, err
 	}
-	leafKey, err := ecdsa.GenerateKey(elliptic.P256(), rand.Reader)
-	if err != nil {
-		return nil, err
-	}
-	leafT := &x509.Certificate{
-		SerialNumber: big.NewInt(2),
-		Subject:      pkix.Name{CommonName: "127.0.0.1"},
+	now := time.Now()
+	t := &x509.Certificate{
+		SerialNumber: big.NewInt(serial),
+		Subject:      pkix.Name{CommonName: name},
 		NotBefore:    now.Add(-time.Hour),
 		NotAfter:     now.Add(48 * time.Hour),
 		KeyUsage:     x509.KeyUsageDigitalSignature,
 		ExtKeyUsage:  []x509.ExtKeyUsage{x509.ExtKeyUsageServerAuth},
-		IPAddresses:  []net.IP{net.IPv4(127, 0, 0, 1)},
-		DNSNames:     []string{"localhost"},
+		IPAddresses:  []net.IP{ip},
+		DNSNames:     []string{name},
 	}
-	leafDER, err := x509.CreateCertificate(rand.Reader, leafT, caCert, &leafKey.PublicKey, caKey)
+	der, err := x509.CreateCertificate(rand.Reader, t, ca, &key.PublicKey, caKey)
+	if err != nil {
+		return tls.Certificate{}, err
+	}
+	return tls.Certificate{Certificate: [][]byte{der}, PrivateKey: key}, nil
+}
+
+func newPKI() (*PKI, error) {
+	ca, caKey, err := newCA("verif C10 harness CA")
 	if err != nil {
 		return nil, err
 	}
-	pool := x509.NewCertPool()
-	pool.AddCert(caCert)
-	return &PKI{
-		Pool: pool,
-		Leaf: tls.Certificate{Certificate: [][]byte{leafDER}, PrivateKey: leafKey},
-	}, nil
+	other, otherKey, err := newCA("verif C10 untrusted CA")
+	if err != nil {
+		return nil, err
+	}
+	p := &PKI{Pool: x509.NewCertPool()}
+	p.Pool.AddCert(ca)
+	if p.Leaf, err = newLeaf(ca, caKey, 2, net.IPv4(127, 0, 0, 1), "localhost"); err != nil {
+		return nil, err
+	}
+	if p.Untrusted, err = newLeaf(other, otherKey, 3, net.IPv4(127, 0, 0, 1), "localhost"); err != nil {
+		return nil, err
+	}
+	if p.WrongName, err = newLeaf(ca, caKey, 4, net.IPv4(10, 11, 12, 13), "elsewhere.example"); err != nil {
+		return nil, err
+	}
+	return p, nil
 }
